@@ -34,6 +34,18 @@ CHECKS = {
         technique="Coq proof (list induction, association-list lemmas) + differential "
                   "correspondence evaluated by vm_compute; exhaustive Edge table",
         design_ref="DESIGN.md section 6/C16"),
+    'C17': dict(
+        text="Theorems (Props/C17.v) for ARBITRARY validator functions in every presence "
+             "combination: a put is accepted iff allowed, check and schema all accept (schema "
+             "consulted last, on the original value), rejected puts change nothing, after ANY put "
+             "sequence the output is the result of the last accepted put and hence always a value "
+             "the validators produced, refused initdef/expired value, restored values validated "
+             "(Input and InputExp); link theorem agree->monitor. Tie: real Input/InputExp blocks "
+             "with table-driven validators over a domain with equal-but-not-identical members, "
+             "constructor outcome, start value, each put's return value and output.",
+        technique="Coq proof (parametric in the validator functions, induction over put lists) + "
+                  "differential correspondence evaluated by vm_compute",
+        design_ref="DESIGN.md section 6/C17"),
 }
 
 NOT_YET = "check not built yet in this round (planned: Coq model + theorems + correspondence, see DESIGN.md section 6)"
